@@ -243,7 +243,7 @@ pub fn run(ctx: &mut Ctx) {
     ctx.section(
         "shape-purity",
         "shape, finiteness, bitwise purity, init_det = seed 42, prefix property, different seeds differ, OS variant shape",
-        t.pick(4000, 400_000),
+        t.pick(40_000, 1_200_000),
         16,
         strategy,
         check,
@@ -251,7 +251,7 @@ pub fn run(ctx: &mut Ctx) {
     ctx.section(
         "distribution",
         "pooled entries: moments 1..4, lag-1 correlations within/between rows, KS distance to Phi",
-        t.pick(48, 2000),
+        t.pick(200, 6_000),
         16,
         dist_strategy,
         dist,
